@@ -326,14 +326,31 @@ Record route := { r_meth : method; r_pat : pattern; r_h : nat }.
 (* goahttp.mux: middlewares waiting for the first Handle (None afterwards),
    middlewares installed in chi, chi's routes, the wildcard-name table keyed by
    method::rewritten-pattern *)
-Record mux := { pending : option (list nat); mws : list nat; routes : list route;
+(* a middleware given to Use: one of the harness's recording middlewares, or goa's own
+   http/middleware.SmartRedirectSlashes (the only one in that package that reads chi's context) *)
+Inductive mwk := MRec (id : nat) | MSmart.
+Definition is_smart (k : mwk) : bool := match k with MSmart => true | MRec _ => false end.
+Fixpoint rec_ids (l : list mwk) : list nat :=
+  match l with [] => [] | MRec i :: r => i :: rec_ids r | MSmart :: r => rec_ids r end.
+(* the middlewares that run before the first SmartRedirectSlashes of the chain *)
+Fixpoint before_smart (l : list mwk) : list mwk :=
+  match l with [] => [] | MSmart :: _ => [] | k :: r => k :: before_smart r end.
+(* how many recording middlewares of the chain ask ResolvePattern/Vars before next *)
+Fixpoint asking (l : list mwk) (pre : list bool) : nat :=
+  match l, pre with
+  | MRec _ :: r, b :: p => (if b then 1 else 0) + asking r p
+  | MSmart :: r, _ :: p => asking r p
+  | _, _ => 0
+  end.
+
+Record mux := { pending : option (list mwk); mws : list mwk; routes : list route;
                 wild : list (method * bstr * bstr) }.
 
 Definition new_muxer : mux := {| pending := Some []; mws := []; routes := []; wild := [] |}.
 
 (* Use: queued before the first Handle; afterwards goa forwards to chi.Mux.Use,
    which panics once a route exists — and Handle always adds one (None = panic) *)
-Definition use (f : nat) (m : mux) : option mux :=
+Definition use (f : mwk) (m : mux) : option mux :=
   match pending m with
   | Some l => Some {| pending := Some (l ++ [f]); mws := mws m; routes := routes m; wild := wild m |}
   | None => None
@@ -427,11 +444,13 @@ Definition notfound_body (e : enc) : option errbody :=
 Inductive outcome :=
 | Handled (h : nat) (vs : list (bstr * bstr)) (hpat : bstr)
 | NotFound (e : enc)
-| MethodNotAllowed.
+| MethodNotAllowed
+| Redirected (loc : bstr).      (* 301 by SmartRedirectSlashes; loc = Location without "//host" *)
 
-(* o_pre: what ResolvePattern and Vars returned to each installed middleware that asked
+(* o_ran: the recording middlewares entered, in order;
+   o_pre: what ResolvePattern and Vars returned to each installed middleware that asked
    before calling next (chain order); o_post: what it returns after next came back *)
-Record obs := { o_pre : list (bstr * list (bstr * bstr)); o_out : outcome; o_post : bstr }.
+Record obs := { o_ran : list nat; o_pre : list (bstr * list (bstr * bstr)); o_out : outcome; o_post : bstr }.
 
 
 Section Dispatch.
@@ -502,22 +521,47 @@ Section Dispatch.
   Definition pre_answer (m : mux) (me : method) (mp : bstr) : bstr * list (bstr * bstr) :=
     (resolve_pattern m ctx0 me mp, vars m ctx0 me mp).
 
-  Definition count_true (l : list bool) : nat := length (filter (fun b => b) l).
+  (* ---- http/middleware.SmartRedirectSlashes mounted with Use ----
+     On the DECODED URL.Path (not RawPath): when the path (longer than "/") matches no route
+     of the method but does with its trailing slash toggled, answer 301 to "//host"+that path;
+     otherwise call next. It matches on fresh chi contexts: nothing else changes. *)
+  Definition toggle_slash (p : bstr) : bstr :=
+    match rev p with
+    | c :: r => if Byte.eqb c slash then rev r else p ++ [slash]
+    | [] => [slash]
+    end.
+  Definition smart_redirects (m : mux) (me : method) (path : bstr) : bool :=
+    existsb is_smart (mws m) && Nat.ltb 1 (length path)
+    && is_nil (cands m me (path_segs path)) && negb (is_nil (cands m me (path_segs (toggle_slash path)))).
 
-  (* pre: for each installed middleware, whether it calls ResolvePattern and Vars before next *)
+  (* net/http hexEscapeNonASCII, applied by http.Redirect to the Location *)
+  Definition hex_lower (k : N) : byte :=
+    match Byte.of_N (if (k <? 10)%N then 48 + k else 87 + k)%N with Some b => b | None => x00 end.
+  Definition hex_escape_non_ascii (s : bstr) : bstr :=
+    flat_map (fun c => if (128 <=? bn c)%N then [pct; hex_lower (bn c / 16)%N; hex_lower (bn c mod 16)%N] else [c]) s.
+
+  (* pre: for each installed middleware, whether it calls ResolvePattern and Vars before next
+     (the flag at a SmartRedirectSlashes position is ignored) *)
   Definition serve (m : mux) (me : method) (wire : bstr) (pre : list bool) (acc_raw : mt) (acc_parsed : option mt)
     : option obs :=
     match set_path wire with
     | None => None
     | Some (path, raw) =>
       let mp := match_path path raw in
-      let pres := repeat (pre_answer m me mp) (count_true (firstn (length (mws m)) pre)) in
+      if smart_redirects m me path then
+        Some {| o_ran := rec_ids (before_smart (mws m));
+                o_pre := repeat (pre_answer m me mp) (asking (before_smart (mws m)) pre);
+                o_out := Redirected (hex_escape_non_ascii (toggle_slash path));
+                o_post := resolve_pattern m ctx0 me mp |}
+      else
+      let pres := repeat (pre_answer m me mp) (asking (mws m) pre) in
       match find_route m ctx0 me (route_path path raw) with
       | (c2, Some r) =>
-        Some {| o_pre := pres; o_out := Handled (r_h r) (vars m c2 me mp) (resolve_pattern m c2 me mp);
+        Some {| o_ran := rec_ids (mws m); o_pre := pres;
+                o_out := Handled (r_h r) (vars m c2 me mp) (resolve_pattern m c2 me mp);
                 o_post := resolve_pattern m c2 me mp |}
       | (c2, None) =>
-        Some {| o_pre := pres;
+        Some {| o_ran := rec_ids (mws m); o_pre := pres;
                 o_out := if mna c2 then MethodNotAllowed else NotFound (response_encoder acc_raw acc_parsed);
                 o_post := resolve_pattern m c2 me mp |}
       end
